@@ -186,13 +186,21 @@ def updateSegOnResponse (s0 : CState) (resp m : Msg) : CState :=
     | none => s0
   else s0
 
+/-- `isinstance(m, Trackable)`: carries log_id / extra_data -/
+def Msg.isTrackable (m : Msg) : Bool :=
+  m.kind = .submitSm || m.kind = .deliverSm || m.kind = .submitSmResp || m.kind = .genericNack
+
+/-- the response as `get` keeps it in a segment status: with the tracking data of its request -/
+def track (resp m : Msg) : Msg :=
+  if resp.isTrackable then { resp with logId := m.logId, extra := m.extra } else resp
+
 /-- `get(response)` -/
 def get (s : CState) (now : Nat) (resp : Msg) : CState × List Out × Option Msg :=
   match aget s.store resp.seq with
   | none => ((removeExpired s now).1, (removeExpired s now).2, none)
   | some (_, m) =>
-    ((removeExpired (updateSegOnResponse { s with store := adel s.store resp.seq } resp m) now).1,
-     (removeExpired (updateSegOnResponse { s with store := adel s.store resp.seq } resp m) now).2,
+    ((removeExpired (updateSegOnResponse { s with store := adel s.store resp.seq } (track resp m) m) now).1,
+     (removeExpired (updateSegOnResponse { s with store := adel s.store resp.seq } (track resp m) m) now).2,
      some m)
 
 /-- `get_segmented(seq, remove)` -/
